@@ -352,3 +352,46 @@ func (c *Ctx) rulesC15() {
 		c.check(len(members) >= 2 && len(not) == 0, "C15.grp", spec.schema+" group "+spec.group+" is mutually exclusive", token.NoPos, strings.Join(not, "; "))
 	}
 }
+
+// rulesC15key: a worker record knows the key it is registered under.
+func (c *Ctx) rulesC15key() {
+	c.rule("C15.key", "when the supervisor re-keys an existing worker record (a value looked up in Supervisor.workers is stored back under another key) it also sets the record's localAddr to the new key in the same function: healthcheck failures are reported by info.localAddr and looked up in the map by it, a stale address makes the error uncounted and the failing worker is never killed or replaced")
+	fW := c.field("pkg/node", "Supervisor", "workers")
+	fLA := c.field("pkg/node", "workerInfo", "localAddr")
+	if fW == nil || fLA == nil {
+		return
+	}
+	n := 0
+	for _, w := range c.writesOfField(fW) {
+		if w.Kind != "mapupdate" {
+			continue
+		}
+		mu := w.Instr.(*ssa.MapUpdate)
+		fromMap := flowsFrom(mu.Value, func(v ssa.Value) bool {
+			lk, ok := v.(*ssa.Lookup)
+			return ok && loadOfField(lk.X) == fW
+		})
+		if !fromMap {
+			continue
+		}
+		n++
+		good := false
+		for _, b := range w.Fn.Blocks {
+			for _, ins := range b.Instrs {
+				st, ok := ins.(*ssa.Store)
+				if !ok || fieldOf(st.Addr) != fLA {
+					continue
+				}
+				fa := st.Addr.(*ssa.FieldAddr)
+				if sameValue(fa.X, mu.Value) && sameValue(st.Val, mu.Key) {
+					good = true
+				}
+			}
+		}
+		c.check(good, "C15.key", funcKey(w.Fn)+": re-keyed worker record gets localAddr = new key", w.Instr.Pos(),
+			"workers["+render(mu.Key)+"] = "+render(mu.Value)+" without "+render(mu.Value)+".localAddr = "+render(mu.Key))
+	}
+	if n < 1 {
+		c.undecided("C15.key: no re-keying of Supervisor.workers found (WorkerForkedState expected)")
+	}
+}
